@@ -22,6 +22,7 @@ static inline void ythread_callback_yield_impl(void *arg,
                                                ABT_pool_context context)
 {
     ABTI_ythread *p_prev = (ABTI_ythread *)arg;
+    ABTI_VERIF_EV(ABTI_VEV_CB, &p_prev->thread, ABTI_VCB_YIELD, 0);
     if (ABTI_thread_handle_request(&p_prev->thread, ABT_TRUE) &
         ABTI_THREAD_HANDLE_REQUEST_CANCELLED) {
         /* p_prev is terminated. */
@@ -61,6 +62,7 @@ void ABTI_ythread_callback_yield_revive_to(void *arg)
 void ABTI_ythread_callback_thread_yield_to(void *arg)
 {
     ABTI_ythread *p_prev = (ABTI_ythread *)arg;
+    ABTI_VERIF_EV(ABTI_VEV_CB, &p_prev->thread, ABTI_VCB_THREAD_YIELD_TO, 0);
     /* p_prev->thread.p_pool is loaded before ABTI_pool_add_thread() to keep
      * num_blocked consistent. Otherwise, other threads might pop p_prev
      * that has been pushed by ABTI_pool_add_thread() and change
@@ -88,6 +90,7 @@ void ABTI_ythread_callback_resume_yield_to(void *arg)
      * access it after that ULT becomes resumable. */
     ABTI_ythread *p_prev = p_arg->p_prev;
     ABTI_ythread *p_next = p_arg->p_next;
+    ABTI_VERIF_EV(ABTI_VEV_CB, &p_prev->thread, ABTI_VCB_RESUME_YIELD_TO, 0);
     if (ABTI_thread_handle_request(&p_prev->thread, ABT_TRUE) &
         ABTI_THREAD_HANDLE_REQUEST_CANCELLED) {
         /* p_prev is terminated. */
@@ -103,14 +106,17 @@ void ABTI_ythread_callback_resume_yield_to(void *arg)
 void ABTI_ythread_callback_suspend(void *arg)
 {
     ABTI_ythread *p_prev = (ABTI_ythread *)arg;
+    ABTI_VERIF_EV(ABTI_VEV_CB, &p_prev->thread, ABTI_VCB_SUSPEND, 0);
     /* Increase the number of blocked threads of the original pool (i.e., before
      * migration) */
     ABTI_pool_inc_num_blocked(p_prev->thread.p_pool);
     /* Request handling.  p_prev->thread.p_pool might be changed. */
     ABTI_thread_handle_request(&p_prev->thread, ABT_FALSE);
     /* Set this thread's state to BLOCKED. */
+    ABTI_VERIF_BEGIN();
     ABTD_atomic_release_store_int(&p_prev->thread.state,
                                   ABT_THREAD_STATE_BLOCKED);
+    ABTI_VERIF_END(ABTI_VEV_STATE, &p_prev->thread, ABT_THREAD_STATE_BLOCKED, 0);
 }
 
 void ABTI_ythread_callback_resume_suspend_to(void *arg)
@@ -121,6 +127,7 @@ void ABTI_ythread_callback_resume_suspend_to(void *arg)
      * access it after that ULT becomes resumable. */
     ABTI_ythread *p_prev = p_arg->p_prev;
     ABTI_ythread *p_next = p_arg->p_next;
+    ABTI_VERIF_EV(ABTI_VEV_CB, &p_prev->thread, ABTI_VCB_RESUME_SUSPEND_TO, 0);
     ABTI_pool *p_prev_pool = p_prev->thread.p_pool;
     ABTI_pool *p_next_pool = p_next->thread.p_pool;
     if (p_prev_pool != p_next_pool) {
@@ -132,14 +139,17 @@ void ABTI_ythread_callback_resume_suspend_to(void *arg)
     /* Request handling.  p_prev->thread.p_pool might be changed. */
     ABTI_thread_handle_request(&p_prev->thread, ABT_FALSE);
     /* Set this thread's state to BLOCKED. */
+    ABTI_VERIF_BEGIN();
     ABTD_atomic_release_store_int(&p_prev->thread.state,
                                   ABT_THREAD_STATE_BLOCKED);
+    ABTI_VERIF_END(ABTI_VEV_STATE, &p_prev->thread, ABT_THREAD_STATE_BLOCKED, 0);
 }
 
 void ABTI_ythread_callback_exit(void *arg)
 {
     /* Terminate this thread. */
     ABTI_ythread *p_prev = (ABTI_ythread *)arg;
+    ABTI_VERIF_EV(ABTI_VEV_CB, &p_prev->thread, ABTI_VCB_EXIT, 0);
     ABTI_thread_terminate(ABTI_global_get_global(),
                           p_prev->thread.p_last_xstream, &p_prev->thread);
 }
@@ -152,6 +162,7 @@ void ABTI_ythread_callback_resume_exit_to(void *arg)
      * access it after that ULT becomes resumable. */
     ABTI_ythread *p_prev = p_arg->p_prev;
     ABTI_ythread *p_next = p_arg->p_next;
+    ABTI_VERIF_EV(ABTI_VEV_CB, &p_prev->thread, ABTI_VCB_RESUME_EXIT_TO, 0);
     /* Terminate this thread. */
     ABTI_thread_terminate(ABTI_global_get_global(),
                           p_prev->thread.p_last_xstream, &p_prev->thread);
@@ -167,13 +178,16 @@ void ABTI_ythread_callback_suspend_unlock(void *arg)
      * access it after that ULT becomes resumable. */
     ABTI_ythread *p_prev = p_arg->p_prev;
     ABTD_spinlock *p_lock = p_arg->p_lock;
+    ABTI_VERIF_EV(ABTI_VEV_CB, &p_prev->thread, ABTI_VCB_SUSPEND_UNLOCK, 0);
     /* Increase the number of blocked threads */
     ABTI_pool_inc_num_blocked(p_prev->thread.p_pool);
     /* Request handling.  p_prev->thread.p_pool might be changed. */
     ABTI_thread_handle_request(&p_prev->thread, ABT_FALSE);
     /* Set this thread's state to BLOCKED. */
+    ABTI_VERIF_BEGIN();
     ABTD_atomic_release_store_int(&p_prev->thread.state,
                                   ABT_THREAD_STATE_BLOCKED);
+    ABTI_VERIF_END(ABTI_VEV_STATE, &p_prev->thread, ABT_THREAD_STATE_BLOCKED, 0);
     /* Release the lock. */
     ABTD_spinlock_release(p_lock);
 }
@@ -186,18 +200,23 @@ void ABTI_ythread_callback_suspend_join(void *arg)
      * access it after that ULT becomes resumable. */
     ABTI_ythread *p_prev = p_arg->p_prev;
     ABTI_ythread *p_target = p_arg->p_target;
+    ABTI_VERIF_EV(ABTI_VEV_CB, &p_prev->thread, ABTI_VCB_SUSPEND_JOIN, 0);
     /* Increase the number of blocked threads */
     ABTI_pool_inc_num_blocked(p_prev->thread.p_pool);
     /* Request handling.  p_prev->thread.p_pool might be changed. */
     ABTI_thread_handle_request(&p_prev->thread, ABT_FALSE);
     /* Set this thread's state to BLOCKED. */
+    ABTI_VERIF_BEGIN();
     ABTD_atomic_release_store_int(&p_prev->thread.state,
                                   ABT_THREAD_STATE_BLOCKED);
+    ABTI_VERIF_END(ABTI_VEV_STATE, &p_prev->thread, ABT_THREAD_STATE_BLOCKED, 0);
     /* Set the link in the context of the target ULT. This p_link might be
      * read by p_target running on another ES in parallel, so release-store
      * is needed here. */
+    ABTI_VERIF_BEGIN();
     ABTD_atomic_release_store_ythread_context_ptr(&p_target->ctx.p_link,
                                                   &p_prev->ctx);
+    ABTI_VERIF_END(ABTI_VEV_LINK_STORE, &p_target->thread, &p_prev->thread, 0);
 }
 
 void ABTI_ythread_callback_suspend_replace_sched(void *arg)
@@ -208,13 +227,16 @@ void ABTI_ythread_callback_suspend_replace_sched(void *arg)
      * access it after that ULT becomes resumable. */
     ABTI_ythread *p_prev = p_arg->p_prev;
     ABTI_sched *p_main_sched = p_arg->p_main_sched;
+    ABTI_VERIF_EV(ABTI_VEV_CB, &p_prev->thread, ABTI_VCB_SUSPEND_REPLACE_SCHED, 0);
     /* Increase the number of blocked threads */
     ABTI_pool_inc_num_blocked(p_prev->thread.p_pool);
     /* Request handling.  p_prev->thread.p_pool might be changed. */
     ABTI_thread_handle_request(&p_prev->thread, ABT_FALSE);
     /* Set this thread's state to BLOCKED. */
+    ABTI_VERIF_BEGIN();
     ABTD_atomic_release_store_int(&p_prev->thread.state,
                                   ABT_THREAD_STATE_BLOCKED);
+    ABTI_VERIF_END(ABTI_VEV_STATE, &p_prev->thread, ABT_THREAD_STATE_BLOCKED, 0);
     /* Ask the current main scheduler to replace its scheduler */
     ABTI_sched_set_request(p_main_sched, ABTI_SCHED_REQ_REPLACE);
 }
@@ -223,6 +245,7 @@ void ABTI_ythread_callback_orphan(void *arg)
 {
     /* It's a special operation, so request handling is unnecessary. */
     ABTI_ythread *p_prev = (ABTI_ythread *)arg;
+    ABTI_VERIF_EV(ABTI_VEV_CB, &p_prev->thread, ABTI_VCB_ORPHAN, 0);
     ABTI_thread_unset_associated_pool(ABTI_global_get_global(),
                                       &p_prev->thread);
 }
